@@ -746,6 +746,20 @@ def run_shard(sh):
                                 run_cli_sqlite(res, q, T, e2, fmt, scratch, to_file, name_input=(idx + fi) % 2 == 0)
                                 res.transitions += 1
             else:
+                if sh.get('tier') == 'thorough':
+                    # thorough: a real process for every case under every configuration, file and stdin
+                    for cfg in CLI_CFGS:
+                        for T in [A] + ([SPECIAL['nl']] if cfg[1] == 'quoted_rfc' else []) + ([SPECIAL['tab']] if cfg[0] == 'TAB' else []) + ([SPECIAL['latin']] if cfg_enc(cfg) == 'latin-1' else []):
+                            if not table_ok_for(T, cfg):
+                                continue
+                            e2 = exp if T is A else expected(q, T, hdr)
+                            if (e2.error is not None and e2.error[0] == 'sort') or (e2.error is None and (any(v is None or isinstance(v, (list, tuple)) for r in e2.records for v in r) or any(len(r) == 0 for r in e2.records))):
+                                continue
+                            for via_stdin in (False, True):
+                                run_cli_subprocess(res, q, T, hdr, e2, cfg, scratch, via_stdin=via_stdin)
+                                res.transitions += 1
+                    res.outcome('err' if exp.error else 'ok')
+                    continue
                 # real processes: rotate configuration and stdin/file per case so that every combination is spawned across the case list
                 cfg = CLI_CFGS[idx % len(CLI_CFGS)]
                 T = A
